@@ -798,6 +798,9 @@ type Data struct {
 
 	metadata   map[Schema][]byte
 	metadataMu sync.RWMutex
+
+	// Serializes the read-merge-write of an annotation update.
+	updateMu sync.Mutex
 }
 
 // IsMutationRequest overrides the default behavior to specify POST /query as an immutable
@@ -1418,6 +1421,11 @@ func (d *Data) storeAndUpdate(ctx *datastore.VersionedCtx, keyStr string, newDat
 	if err != nil {
 		return err
 	}
+
+	// The stored annotation is read, merged with the posted fields and written back: concurrent
+	// updates must not interleave between the read and the write.
+	d.updateMu.Lock()
+	defer d.updateMu.Unlock()
 
 	// get original data so we can handle default update and tell which values change for _user/_time fields.
 	origData, found, err := d.getStoreData(ctx, keyStr)
